@@ -40,6 +40,10 @@ func handleFuncOptsF32(expShape Shape, o DataOrder, opts ...FuncOpt) (reuse Dens
 }
 
 func prepDataVSF32(a Tensor, b interface{}, reuse Tensor) (dataA *storage.Header, dataB float32, dataReuse *storage.Header, ait, iit Iterator, useIter bool, err error) {
+	if reuse != nil {
+		a = operandFor(a, reuse, true)
+	}
+
 	// get data
 	dataA = a.hdr()
 	switch bt := b.(type) {
